@@ -14,6 +14,12 @@ package limitscheck
 //	{"a":"TakeDest","m","d","reqtls":true}  the same with REQUIRETLS set on the message: the plaintext next
 //	                                  hop cannot satisfy it, the attempt is refused (550 5.7.30) -> res "refused"
 //	{"a":"MailReject","m","d"}        (plan) the next hop refuses this delivery's MAIL for d
+//	{"a":"RcptReject","m","d"}        (plan) the next hop accepts MAIL and refuses the RCPT of that first
+//	                                  recipient of d: the connection carries no recipient
+//	{"a":"MoreRcpt","m","d","rej"}    delivery.AddRcpt("v<n>@d"), a further recipient of a domain the delivery
+//	                                  is connected to; rej: the next hop refuses it
+//	src "null": the delivery has the null reverse-path; ip "lo": the message has no TCP peer address
+//	(odd behaviour ids: no connection state at all, even ones: a unix-socket peer)
 //	{"a":"End","m","how"}             how the delivery ends:
 //	    abort     delivery.Abort()                                   (connections go back to the pool)
 //	    commit    Body (accepted) + Commit                           (pooled)
@@ -36,6 +42,7 @@ import (
 	"net"
 	"os"
 	"sort"
+	"strconv"
 	"strings"
 	"sync"
 	"testing"
@@ -58,6 +65,8 @@ type rworld struct {
 	mu       sync.Mutex
 	reject   map[string]bool   // "from|domain": refuse the next MAIL
 	rejected map[string]bool   // "from|domain": a MAIL was refused
+	rcptRej  map[string]bool   // "from|domain": refuse the next RCPT
+	rcptRejd map[string]bool   // "from|domain": a RCPT was refused
 	dataPlan map[string]string // "from|domain": datafail | drop | rsetfail for the current transaction
 }
 
@@ -70,6 +79,7 @@ func (w *rworld) serve(c net.Conn, domain string) {
 	}
 	inData := false
 	cur := "" // "from|domain" of the transaction in progress
+	nrcpt := 0 // recipients accepted in it
 	plan := func() string {
 		w.mu.Lock()
 		defer w.mu.Unlock()
@@ -99,6 +109,7 @@ func (w *rworld) serve(c net.Conn, domain string) {
 			}
 			k := from + "|" + domain
 			cur = k
+			nrcpt = 0
 			w.mu.Lock()
 			rej := w.reject[k]
 			if rej {
@@ -112,7 +123,21 @@ func (w *rworld) serve(c net.Conn, domain string) {
 				say("250 2.1.0 ok")
 			}
 		case strings.HasPrefix(up, "RCPT TO:"):
-			say("250 2.1.5 ok")
+			w.mu.Lock()
+			rej := w.rcptRej[cur]
+			if rej {
+				delete(w.rcptRej, cur)
+				w.rcptRejd[cur] = true
+			}
+			w.mu.Unlock()
+			if rej {
+				say("550 5.1.1 no such user")
+			} else {
+				nrcpt++
+				say("250 2.1.5 ok")
+			}
+		case up == "DATA" && nrcpt == 0:
+			say("503 5.5.1 no valid recipients")
 		case up == "DATA":
 			switch plan() {
 			case "datafail":
@@ -124,6 +149,7 @@ func (w *rworld) serve(c net.Conn, domain string) {
 				say("354 go ahead")
 			}
 		case up == "RSET":
+			nrcpt = 0
 			if plan() == "rsetfail" {
 				say("451 4.0.0 try again later")
 			} else {
@@ -142,8 +168,9 @@ func (w *rworld) serve(c net.Conn, domain string) {
 
 type rclient struct {
 	client
-	d    module.Delivery
-	meta *module.MsgMetadata
+	d     module.Delivery
+	meta  *module.MsgMetadata
+	nmore int
 }
 
 type rrun struct {
@@ -180,11 +207,11 @@ func (r *rrun) rcall(c *rclient, op, ip, src, d, how string, reqtls bool) {
 	c.pending, c.op = true, op
 	r.mu.Unlock()
 	r.tr.Emit("Call", vtrace.Ev{"m": c.name, "op": op, "ip": ip, "src": src, "d": d, "how": how, "reqtls": reqtls})
-	from := c.name + "@" + src
+	from := fromOf(c.name, src)
 	go func() {
 		r.enter(c.name)
 		res, detail := "ok", ""
-		rejected := false
+		rejected, rcptRejected := false, false
 		defer func() {
 			if p := recover(); p != nil {
 				res, detail = classifyPanic(p), fmt.Sprint(p)
@@ -197,7 +224,7 @@ func (r *rrun) rcall(c *rclient, op, ip, src, d, how string, reqtls bool) {
 			case op == "TakeMsg" && res == "ok":
 				c.msg, c.ip, c.src = true, ip, src
 			case op == "TakeDest" && res == "ok" && !rejected:
-				c.dst[d] = true
+				c.dst[d] = true // also after a refused RCPT: the connection stays part of the delivery
 			case op == "End":
 				c.msg = false
 				c.dst = map[string]bool{}
@@ -208,6 +235,9 @@ func (r *rrun) rcall(c *rclient, op, ip, src, d, how string, reqtls bool) {
 			if rejected {
 				r.tr.Emit("MailReject", vtrace.Ev{"m": c.name, "d": d})
 			}
+			if rcptRejected {
+				r.tr.Emit("RcptReject", vtrace.Ev{"m": c.name, "d": d})
+			}
 		}()
 		ctx := context.Background()
 		switch op {
@@ -215,6 +245,11 @@ func (r *rrun) rcall(c *rclient, op, ip, src, d, how string, reqtls bool) {
 			meta := &module.MsgMetadata{
 				ID:   c.name,
 				Conn: &module.ConnState{RemoteAddr: &net.TCPAddr{IP: ipOf(ip), Port: 2525}},
+			}
+			if ip == LoKey && r.b.ID%2 == 1 {
+				meta.Conn = nil
+			} else if ip == LoKey {
+				meta.Conn = &module.ConnState{RemoteAddr: &net.UnixAddr{Name: "/run/verif.sock", Net: "unix"}}
 			}
 			dl, err := r.tgt.Start(ctx, meta, from)
 			res = classifyErr(err)
@@ -233,11 +268,13 @@ func (r *rrun) rcall(c *rclient, op, ip, src, d, how string, reqtls bool) {
 			} else if err != nil {
 				detail = err.Error()
 				r.w.mu.Lock()
-				k := c.name + "@" + c.src + "|" + d
+				k := fromOf(c.name, c.src) + "|" + d
 				rejected = r.w.rejected[k]
 				delete(r.w.rejected, k)
+				rcptRejected = !rejected && r.w.rcptRejd[k]
+				delete(r.w.rcptRejd, k)
 				r.w.mu.Unlock()
-				if !rejected {
+				if !rejected && !rcptRejected {
 					res = classifyErr(err)
 				}
 				// rejected: the permit was taken (MAIL is sent after TakeDest) - res stays ok
@@ -267,7 +304,53 @@ func (r *rrun) rcall(c *rclient, op, ip, src, d, how string, reqtls bool) {
 	synctest.Wait()
 }
 
-func (r *rrun) rstep(st Step, rejectNext bool) {
+// moreRcpt adds a further recipient of domain d to the delivery of c (no limit operation is
+// expected: the delivery is connected to d already).
+func (r *rrun) moreRcpt(c *rclient, d string, rej bool) {
+	prev := r.parked()
+	defer func() { r.resume(prev) }()
+	r.mu.Lock()
+	c.pending = true
+	c.nmore++
+	n := c.nmore
+	r.mu.Unlock()
+	k := fromOf(c.name, c.src) + "|" + d
+	r.w.mu.Lock()
+	delete(r.w.rcptRej, k)
+	delete(r.w.rcptRejd, k)
+	if rej {
+		r.w.rcptRej[k] = true
+	}
+	r.w.mu.Unlock()
+	go func() {
+		r.enter(c.name)
+		res := "ok"
+		defer func() {
+			if p := recover(); p != nil {
+				res = "panic"
+			}
+			r.mu.Lock()
+			c.pending = false
+			r.mu.Unlock()
+			r.tr.Emit("MoreRcpt", vtrace.Ev{"m": c.name, "d": d, "rej": rej, "res": res})
+		}()
+		if err := c.d.AddRcpt(context.Background(), "v"+strconv.Itoa(n)+"@"+d, smtp.RcptOptions{}); err != nil {
+			res = "err"
+		}
+	}()
+	synctest.Wait()
+}
+
+func fromOf(m, src string) string {
+	if src == NullKey {
+		return ""
+	}
+	return m + "@" + src
+}
+
+func (r *rrun) rstep(st Step, rejectNext bool) { r.rstepPlan(st, rejectNext, false) }
+
+func (r *rrun) rstepPlan(st Step, rejectNext, rcptRejectNext bool) {
 	switch st.A {
 	case "Tick":
 		r.tick()
@@ -275,7 +358,7 @@ func (r *rrun) rstep(st Step, rejectNext bool) {
 	case "Minute":
 		r.minute()
 		return
-	case "MailReject", "Quiesced", "Fill":
+	case "MailReject", "RcptReject", "Quiesced", "Fill":
 		return
 	}
 	c := r.rclient(st.M)
@@ -300,13 +383,25 @@ func (r *rrun) rstep(st Step, rejectNext bool) {
 			return
 		}
 		r.w.mu.Lock()
-		delete(r.w.reject, c.name+"@"+src+"|"+st.D) // a plan that was never reached must not leak
-		delete(r.w.rejected, c.name+"@"+src+"|"+st.D)
+		k := fromOf(c.name, src) + "|" + st.D
+		delete(r.w.reject, k) // a plan that was never reached must not leak
+		delete(r.w.rejected, k)
+		delete(r.w.rcptRej, k)
+		delete(r.w.rcptRejd, k)
 		if rejectNext {
-			r.w.reject[c.name+"@"+src+"|"+st.D] = true
+			r.w.reject[k] = true
+		}
+		if rcptRejectNext {
+			r.w.rcptRej[k] = true
 		}
 		r.w.mu.Unlock()
 		r.rcall(c, "TakeDest", "", "", st.D, "", st.Reqtls)
+	case "MoreRcpt":
+		if !msg || !hasD {
+			r.skip(st, "no open delivery / not connected to the domain")
+			return
+		}
+		r.moreRcpt(c, st.D, st.Rej)
 	case "End":
 		if !msg {
 			r.skip(st, "no open delivery")
@@ -319,7 +414,7 @@ func (r *rrun) rstep(st Step, rejectNext bool) {
 		r.w.mu.Lock()
 		r.mu.Lock()
 		for d := range c.dst {
-			k := c.name + "@" + src + "|" + d
+			k := fromOf(c.name, src) + "|" + d
 			delete(r.w.dataPlan, k)
 			if how == "datafail" || how == "drop" || how == "rsetfail" {
 				r.w.dataPlan[k] = how
@@ -344,7 +439,8 @@ func runRemoteBehaviour(t *testing.T, b Behaviour, w *bufio.Writer) {
 		if err != nil {
 			t.Fatalf("behaviour %d: cannot build limits group: %v", b.ID, err)
 		}
-		world := &rworld{reject: map[string]bool{}, rejected: map[string]bool{}, dataPlan: map[string]string{}}
+		world := &rworld{reject: map[string]bool{}, rejected: map[string]bool{}, dataPlan: map[string]string{},
+			rcptRej: map[string]bool{}, rcptRejd: map[string]bool{}}
 		reuse := b.Reuse
 		if reuse <= 0 {
 			reuse = 10
@@ -394,17 +490,18 @@ func runRemoteBehaviour(t *testing.T, b Behaviour, w *bufio.Writer) {
 			rc: map[string]*rclient{}}
 		r.installYield()
 		for i, st := range b.Hist {
-			rej := false
+			rej, rrej := false, false
 			if st.A == "TakeDest" {
 				for _, nx := range b.Hist[i+1:] {
 					if nx.M != st.M {
 						continue
 					}
 					rej = nx.A == "MailReject" && nx.D == st.D
+					rrej = nx.A == "RcptReject" && nx.D == st.D
 					break
 				}
 			}
-			r.rstep(st, rej)
+			r.rstepPlan(st, rej, rrej)
 		}
 		// every delivery ends
 		endAll := func() {
